@@ -507,6 +507,15 @@ def rule_widen1(ctx: Ctx) -> RuleResult:
                 and isinstance(n.func.value, ast.Name):
             lstn = n.func.value.id
             ds = ctx.defs_reaching(f, n, lstn) or []
+
+            def _self_filter(d) -> bool:
+                v = getattr(d, "value", None)
+                return isinstance(v, ast.ListComp) and len(v.generators) == 1 and norm(v.generators[0].iter) == lstn and \
+                    norm(v.elt) == norm(v.generators[0].target)
+            # (a definition that only filters the list itself does not change where it came from: look at all definitions then)
+            if any(_self_filter(d) for d in ds):
+                ds = [d for d in walk_no_nested(f.node) if isinstance(d, (ast.Assign, ast.AnnAssign)) and
+                      norm(d.targets[0] if isinstance(d, ast.Assign) else d.target) == lstn and not _self_filter(d)]
             derived_ok = lstn in cats or all(isinstance(d, (ast.Assign, ast.AnnAssign)) and d.value is not None and
                                              any(isinstance(c_, ast.Name) and c_.id in cats for c_ in ast.walk(d.value))
                                              for d in ds) and bool(ds)
@@ -546,6 +555,11 @@ def rule_widen1(ctx: Ctx) -> RuleResult:
     if final:
         lst = final[-1].args[0].value.id
         rem = [n for n in walk_no_nested(f.node) if isinstance(n, ast.Call) and norm(n.func) == f"{lst}.remove" and norm(n.args[0]) == "Unknown"]
+        # ... or a comprehension that keeps everything but Unknown
+        rem += [n for n in walk_no_nested(f.node) if isinstance(n, ast.Assign) and norm(n.targets[0]) == lst and isinstance(n.value, ast.ListComp)
+                and len(n.value.generators) == 1 and norm(n.value.generators[0].iter) == lst and len(n.value.generators[0].ifs) == 1
+                and norm(n.value.generators[0].ifs[0]) in (f"{norm(n.value.generators[0].target)} is not Unknown",
+                                                           f"{norm(n.value.generators[0].target)} != Unknown")]
         adds = [n for n in walk_no_nested(f.node) if isinstance(n, ast.Call) and norm(n.func) in (f"{lst}.append", f"{lst}.extend")]
         defs = [n for n in walk_no_nested(f.node) if isinstance(n, ast.Assign) and norm(n.targets[0]) == lst]
         def _only_filters(d: ast.Assign) -> bool:
@@ -846,6 +860,28 @@ def rule_drop1(ctx: Ctx) -> RuleResult:
                 continue
             conts = [n for n in walk_no_nested(f.node) if isinstance(n, ast.Continue)]
             ok = bool(conts)
+            comps = [n for n in walk_no_nested(f.node) if isinstance(n, (ast.ListComp, ast.GeneratorExp)) and any(g.ifs for g in n.generators)]
+            if not conts and comps:
+                # `[field for field in fields if self.model.type[field] not in (Unknown, Null)]`
+                okc = True
+                texts = []
+                for cp in comps:
+                    g0 = cp.generators[0]
+                    v = norm(g0.target)
+                    for cnd in g0.ifs:
+                        t = norm(cnd)
+                        texts.append(t)
+                        if t not in (f"self.model.type[{v}] not in (Unknown, Null)", f"self.model.type[{v}] not in (Null, Unknown)",
+                                     f"self.model.type.get({v}) not in (Unknown, Null)"):
+                            okc = False
+                    if len(cp.generators) != 1 or norm(cp.elt) != v:
+                        okc = False
+                only_fw = k.name.startswith(("Pydantic", "SqlModel"))
+                rr.ob(f.relpath, f.qualname, "; ".join(texts)[:90],
+                      "fields are skipped only when their type is Unknown or Null (every observed value null), and only for "
+                      "pydantic/sqlmodel", DISCHARGED if okc and only_fw else VIOLATED,
+                      "kept unless the type is Unknown / Null" if okc and only_fw else "fields can be dropped for another reason", f.node.lineno)
+                continue
             for c in conts:
                 iff = f.module.parents.get(c)
                 t = norm(iff.test) if isinstance(iff, ast.If) else ""
